@@ -143,6 +143,10 @@ def judge_factory(rec, cfg):
         if kind == "sink":
             if st["num_item_received"] != len(received[nid]):
                 v("C18", "counter", f"sink {nid}: num_item_received {st['num_item_received']} but {len(received[nid])} items were taken")
+                # an item taken out of an edge and not counted as received is in no edge and no node any more: the factory-wide
+                # identity generated = in nodes + in edges + discarded + received fails
+                v("C03", "sink-count", f"sink {nid}: {len(received[nid])} items taken from its in-edges but num_item_received = {st['num_item_received']}: "
+                                       f"{len(received[nid]) - st['num_item_received']} item(s) are nowhere in the factory")
             cyc = sum(t - created_t.get(i, t) for i, t in received[nid])
             got = f2t(st["total_cycle_time"])
             if got != cyc:
@@ -394,6 +398,10 @@ def judge_pack_node(rec, nid, kind, n, c, acts, put_by, got_by, emit, pending, w
             want = L["pre"] + [i for i, _ in L["got"]]
             if list(content) != want:
                 v("C16", "content", f"combiner {nid}: pallet {u} left carrying {list(content)} but {want} were loaded onto it")
+                lost = [i for i in want if i not in list(content)]
+                if lost:      # taken out of an edge (or brought in on the pallet) and gone: in no edge, no node, on no pallet
+                    v("C03", "lost-on-pallet", f"combiner {nid}: items {lost} were on pallet {u} (brought in or loaded here) but are not on it when it leaves: "
+                                               f"they are nowhere in the factory")
             for e in range(1, nin):
                 k = sum(1 for _, ee in L["got"] if ee == e)
                 tq = target[e] if e < len(target) else None
